@@ -342,6 +342,59 @@ def allEdgeObjs (o : Obs) : List Obj := o.gE.filterMap id
 
 end World
 
+/-! ### histories of operations on a graph and its observers -/
+
+inductive WOp where
+  | graph (op : Op)                                   -- a mutator called on `getGraph()`
+  | createNode (k : Nat) (a : Obj)
+  | createNodeFrom (k : Nat) (origin a : Obj) (x : Option Obj)
+  | link (k : Nat) (a b : Obj) (x : Option Obj)
+  | unlink (k : Nat) (a b : Obj)
+  | deleteNode (k : Nat) (a : Obj)
+  | associateNode (k : Nat) (a : Obj) (id : Nat)
+  | associateEdge (k : Nat) (x : Obj) (e : Nat)
+  | dissociateNode (k : Nat) (a : Obj)
+  | dissociateEdge (k : Nat) (x : Obj)
+  | setNodeIndex (k : Nat) (a : Obj) (i : Nat)
+  | addNodeIndex (k : Nat) (a : Obj)
+  | setEdgeIndex (k : Nat) (x : Obj) (i : Nat)
+  | addEdgeIndex (k : Nat) (x : Obj)
+  | setEdgeLinking (k : Nat) (a b x : Obj)
+  | copy (j k : Nat)
+  | drop (k : Nat)
+deriving Repr
+
+def OOut.world {α : Type} (w : World) : OOut α → World
+  | .ok _ w' => w'
+  | .exc _ w' => w'
+  | .ub => w
+
+namespace World
+/-- the world after the operation, whether it succeeded or raised (an undefined call is not made) -/
+def step (w : World) : WOp → World
+  | .graph op => (w.graphOp (w.g.applyR op)).2
+  | .createNode k a => (w.createNode k a).world w
+  | .createNodeFrom k o a x => (w.createNodeFrom k o a x).world w
+  | .link k a b x => (w.link k a b x).world w
+  | .unlink k a b => (w.unlink k a b).world w
+  | .deleteNode k a => (w.deleteNode k a).world w
+  | .associateNode k a id => (w.localOp k (fun g o => associateNode g o a id)).world w
+  | .associateEdge k x e => (w.localOp k (fun g o => associateEdge g o x e)).world w
+  | .dissociateNode k a => (w.localOp k (fun _ o => dissociateNodeO o a)).world w
+  | .dissociateEdge k x => (w.localOp k (fun _ o => dissociateEdgeO o x)).world w
+  | .setNodeIndex k a i => (w.localOp k (fun _ o => setNodeIndexO o a i)).world w
+  | .addNodeIndex k a => (w.localOp k (fun _ o => (addNodeIndexO o a).map (·.2))).world w
+  | .setEdgeIndex k x i => (w.localOp k (fun _ o => setEdgeIndexO o x i)).world w
+  | .addEdgeIndex k x => (w.localOp k (fun _ o => (addEdgeIndexO o x).map (·.2))).world w
+  | .setEdgeLinking k a b x => (w.localOp k (fun g o => setEdgeLinkingO g o a b x)).world w
+  | .copy j k => (w.copy j k).world w
+  | .drop k => if k = 0 then w else w.drop k
+
+def run (w : World) (ops : List WOp) : World := ops.foldl step w
+/-- a fresh observer on a fresh graph -/
+def init (directed : Bool) : World := { g := Graph.empty directed }
+end World
+
 /-! ### the association invariant, executable -/
 
 /-- the executable form of `OInv` (proved equivalent in `Lemmas/Observer.lean`): the four pairs
